@@ -257,8 +257,11 @@ func oracleC07(src string, seed int64) string {
 	base := erasedStmts(stmts)
 	r := newRng(seed, src)
 	seps := []string{" ", "\n", "\t", " // c\n", "\n\n", "  ", "\r\n", " //\n"}
+	heads := []string{"", "", "// h\n", "\n", "//\n \t"}
+	tails := []string{"", "", "// t", "//", " // x ; | ) , b desc", "\t//c\r"}
 	for variant := 0; variant < 3; variant++ {
 		var sb strings.Builder
+		sb.WriteString(pick(r, heads))
 		for i, t := range toks {
 			lex := src[t.Span.Start:t.Span.End]
 			// operator keywords (identifier directly after a pipe) may be replaced by their synonym
@@ -273,6 +276,7 @@ func oracleC07(src string, seed int64) string {
 			}
 			sb.WriteString(pick(r, seps))
 		}
+		sb.WriteString(pick(r, tails))
 		st2, err2 := parser.Parse(sb.String())
 		if err2 != nil {
 			return fmt.Sprintf("FAIL layout: accepted program rejected after re-layout %q: %v", sb.String(), firstLine(err2.Error()))
